@@ -2,22 +2,25 @@
  *
  *   std::vector<scheduler::SchItem>  +  std::push_heap / std::pop_heap / std::find_if instantiated on it.
  *
- * libstdc++ internals are never translated.  Abstract state: size vec_n (arbitrary, unbounded) and an ELEMENT VIEW: only the few
- * positions a proof looks at are materialised, each in a slot vec_s[k] of the REAL element type (ITEM = scheduler::SchItem as laid out by
- * clang: _tp, _p, _ident) tagged with the position vec_p[k] it stands for.  A position that is looked at for the first time gets an
- * arbitrary content (nothing is known about it).  vec_heap_len = length of the prefix that is a heap w.r.t. the scheduler's comparator.
- * The heap algorithms permute the vector; they are specified element-wise, quantifier-free:
- *
- *   - gh_G   : an arbitrary-but-fixed POSITION.  Every "for all positions i" fact of an algorithm's postcondition is supplied at i = gh_G
- *              (and at the position of the tracked element), which is all a proof about an arbitrary position may use.
- *   - tracked: an arbitrary-but-fixed ELEMENT (vec_tin = still in the vector, vec_tpos = its current position).  Permutations move it to
- *              some position of the result; nothing else is known about where.  "Nothing is lost or altered" is proved for this element.
- *   Positions 0, gh_G and vec_tpos are always materialised while they are in range (VEC_KNOWN).
+ * libstdc++ internals are never translated.  Abstract state: size vm.n (arbitrary, unbounded), vm.heap_len = length of the prefix that
+ * is a heap w.r.t. the scheduler's comparator, and an ELEMENT VIEW in slots of the REAL element type (ITEM = scheduler::SchItem as laid
+ * out by clang: _tp, _p, _ident):
+ *     vm.top   the element at position 0                                   (meaningful iff n > 0)
+ *     tracked  an arbitrary-but-fixed ELEMENT of the vector: vm.tin = still inside, vm.tpos = its current position; its content lives in
+ *              vm.trk unless the position coincides with a materialised one (VEC_T).  The heap algorithms move it to SOME position of
+ *              the result - nothing else is known about where.  What is proved for this element holds for every element ("for all
+ *              entries" without a quantifier; every element of a result vector is an element of the argument vector, or the pushed one).
+ *     vm.back  the element at position n-1 while vm.bk (between push_back and push_heap, between pop_heap and pop_back)
+ *     vm.nw    the element push_heap has just placed, at position vm.lastpos (VEC_NW), while vm.nwin
+ *   Any other position is unknown: looking at it yields an arbitrary element.
  *
  *   pop_heap(first,last,comp)  : moves the first element to the back; it is an element e such that comp(e,x) is false for every remaining
- *                                x (evaluated with the REAL translated comparator VEC_COMPARE); the new first element is again such an element.
- *   push_heap(first,last,comp) : the last element lands somewhere (vec_lastpos); afterwards comp(first element, x) is false for every x.
- *   find_if(first,last,pred)   : first position whose element satisfies the REAL translated predicate (VEC_FIND_PRED), or last.
+ *                                x (evaluated with the REAL translated comparator VEC_COMPARE, at the new first and at the tracked element);
+ *                                the new first element is again such an element.
+ *   push_heap(first,last,comp) : the last element lands somewhere (vm.lastpos); the first element stays unless the new one becomes first;
+ *                                afterwards comp(first element, x) is false for every x (supplied at the tracked and the new element).
+ *   find_if(first,last,pred)   : first position whose element satisfies the REAL translated predicate (VEC_FIND_PRED), or last
+ *                                ("no earlier element satisfies it" supplied at the first and at the tracked element).
  *
  * Preconditions of the real containers/algorithms are OBLIGATIONS on the cocls code (__CPROVER_assert): operator[] in range,
  * front/back/pop_back on a non-empty vector, heap algorithms on the whole vector, [first,last-1) / [first,last) being a heap built with
@@ -31,95 +34,84 @@
  *   VEC_ITEM_MOVE(dst,src)  the real translated SchItem(SchItem&&)  VEC_ITEM_DTOR(x)       the real translated ~SchItem()
  *   VEC_FIND_PRED(cl,x)     the real translated predicate of find_if (only if CV_HAS_vec_find_if)
  * Trusted base. */
-#define VEC_NS 6                          /* slots: first, gh_G, tracked, back, found, landing position of push_heap */
 #ifndef VEC_MAX_N
-#define VEC_MAX_N (1UL << 62)             /* arithmetic bound on size() (ghost counter never wraps) */
+#define VEC_MAX_N (1UL << 62)             /* arithmetic bound on size() (the size counter never wraps) */
 #endif
-ITEM vec_s[VEC_NS]; cv_i64 vec_p[VEC_NS]; cv_i1 vec_u[VEC_NS];
-cv_i64 vec_n;                             /* size()                                                         */
-cv_i64 vec_heap_len;                      /* [0, vec_heap_len) is a heap w.r.t. the scheduler's comparator   */
-cv_i64 gh_G;                              /* arbitrary position                                             */
-cv_i64 vec_tpos; cv_i1 vec_tin;           /* tracked element: position / still inside                       */
-cv_i64 vec_lastpos;                       /* where push_heap put the element that was last                  */
-unsigned gh_vec_dtor;                     /* number of ~vector() calls                                      */
+struct vec_model {
+  cv_i64 n, heap_len;
+  ITEM top;
+  cv_i1 tin; cv_i64 tpos; ITEM trk;
+  cv_i1 bk; ITEM back;
+  cv_i1 nwin; cv_i64 lastpos; ITEM nw;
+  ITEM scr;                               /* scratch: an unknown position that is being looked at */
+} vm;
+#define vec_n vm.n
+#define vec_heap_len vm.heap_len
+#define vec_tin vm.tin
+#define vec_tpos vm.tpos
+#define vec_lastpos vm.lastpos
+unsigned gh_vec_dtor;                     /* number of ~vector() calls */
 static char vec_tok_b[1], vec_tok_e[1];
 #define VEC_BEGIN ((ITEM *)(vec_tok_b + 1))
 #define VEC_END   ((ITEM *)(vec_tok_e + 1))
-
-/* element view for contracts (pure expressions) */
-#define VEC_IS(k, i) (vec_u[k] && vec_p[k] == (i))
-#define VEC_HAS(i)   (VEC_IS(0, i) || VEC_IS(1, i) || VEC_IS(2, i) || VEC_IS(3, i) || VEC_IS(4, i) || VEC_IS(5, i))
-#define VEC_AT(i)    (VEC_IS(0, i) ? &vec_s[0] : VEC_IS(1, i) ? &vec_s[1] : VEC_IS(2, i) ? &vec_s[2] : VEC_IS(3, i) ? &vec_s[3] : VEC_IS(4, i) ? &vec_s[4] : &vec_s[5])
-#define VEC_DIFF(a, b) (!(vec_u[a] && vec_u[b]) || vec_p[a] != vec_p[b])
-#define VEC_SLOT_OK(k) (vec_u[k] <= 1 && (vec_u[k] ==> vec_p[k] < vec_n))
-#define VEC_SLOTS_WF (VEC_SLOT_OK(0) && VEC_SLOT_OK(1) && VEC_SLOT_OK(2) && VEC_SLOT_OK(3) && VEC_SLOT_OK(4) && VEC_SLOT_OK(5) && \
-   VEC_DIFF(0,1) && VEC_DIFF(0,2) && VEC_DIFF(0,3) && VEC_DIFF(0,4) && VEC_DIFF(0,5) && VEC_DIFF(1,2) && VEC_DIFF(1,3) && VEC_DIFF(1,4) && VEC_DIFF(1,5) && \
-   VEC_DIFF(2,3) && VEC_DIFF(2,4) && VEC_DIFF(2,5) && VEC_DIFF(3,4) && VEC_DIFF(3,5) && VEC_DIFF(4,5))
-#define VEC_KNOWN    ((vec_n > 0 ==> VEC_HAS(0)) && (gh_G < vec_n ==> VEC_HAS(gh_G)) && (vec_tin ==> VEC_HAS(vec_tpos)))
-#define VEC_CANON_K(k) (vec_u[k] ==> (vec_p[k] == 0 || vec_p[k] == gh_G || (vec_tin && vec_p[k] == vec_tpos)))
-#define VEC_CANON    (VEC_CANON_K(0) && VEC_CANON_K(1) && VEC_CANON_K(2) && VEC_CANON_K(3) && VEC_CANON_K(4) && VEC_CANON_K(5))   /* nothing else is materialised: at most 3 slots in use */
-#define VEC_MODEL_ASSIGNS __CPROVER_object_whole(vec_s), __CPROVER_object_whole(vec_p), __CPROVER_object_whole(vec_u), vec_n, vec_heap_len, vec_tpos, vec_tin, vec_lastpos
-
+#define VEC_TOP   (&vm.top)                                                                             /* element 0              */
+#define VEC_T     (vm.tpos == 0 ? &vm.top : (vm.bk && vm.tpos == vm.n - 1) ? &vm.back : &vm.trk)        /* the tracked element    */
+#define VEC_NW    (vm.lastpos == 0 ? &vm.top : &vm.nw)                                                  /* the element just placed by push_heap */
+#define VEC_MODEL_ASSIGNS __CPROVER_object_whole(&vm)
 #define VEC_ASSERT(c, msg) do { __CPROVER_assert(c, msg); __CPROVER_assume(c); } while (0)
 
-/* the slot standing for position i; materialised with arbitrary content when it is looked at for the first time */
-static ITEM *vec_get(cv_i64 i) {
-  if (VEC_IS(0, i)) return &vec_s[0];
-  if (VEC_IS(1, i)) return &vec_s[1];
-  if (VEC_IS(2, i)) return &vec_s[2];
-  if (VEC_IS(3, i)) return &vec_s[3];
-  if (VEC_IS(4, i)) return &vec_s[4];
-  if (VEC_IS(5, i)) return &vec_s[5];
-  ITEM fresh; int k = !vec_u[0] ? 0 : !vec_u[1] ? 1 : !vec_u[2] ? 2 : !vec_u[3] ? 3 : !vec_u[4] ? 4 : !vec_u[5] ? 5 : -1;
-  VEC_ASSERT(k >= 0, "model bound: at most VEC_NS positions of the vector are materialised at a time");
-  vec_u[k] = 1; vec_p[k] = i; vec_s[k] = fresh;
-  return &vec_s[k]; }
-static void vec_forget(cv_i64 i) {
-  if (VEC_IS(0, i)) vec_u[0] = 0; if (VEC_IS(1, i)) vec_u[1] = 0; if (VEC_IS(2, i)) vec_u[2] = 0;
-  if (VEC_IS(3, i)) vec_u[3] = 0; if (VEC_IS(4, i)) vec_u[4] = 0; if (VEC_IS(5, i)) vec_u[5] = 0; }
-static void vec_forget_all(void) { vec_u[0] = 0; vec_u[1] = 0; vec_u[2] = 0; vec_u[3] = 0; vec_u[4] = 0; vec_u[5] = 0; }
+static ITEM *vec_unknown(void) { ITEM fresh; vm.scr = fresh; return &vm.scr; }
+static ITEM *vec_at(cv_i64 i) {
+  if (i == 0) return &vm.top;
+  if (vm.tin && i == vm.tpos) return VEC_T;
+  if (vm.bk && i == vm.n - 1) return &vm.back;
+  if (vm.nwin && i == vm.lastpos) return &vm.nw;
+  return vec_unknown(); }
 
-void _ZNSt6vectorIN5cocls9scheduler7SchItemESaIS2_EEC2Ev(VECT *v) { vec_n = 0; vec_heap_len = 0; vec_tin = 0; vec_forget_all(); }
+void _ZNSt6vectorIN5cocls9scheduler7SchItemESaIS2_EEC2Ev(VECT *v) { vm.n = 0; vm.heap_len = 0; vm.tin = 0; vm.bk = 0; vm.nwin = 0; }
 #ifdef VEC_ITEM_DTOR
 void _ZNSt6vectorIN5cocls9scheduler7SchItemESaIS2_EED2Ev(VECT *v) {
   /* destroys every element: executed on the arbitrary tracked element (what holds for it holds for all) */
-  if (vec_tin) { VEC_ITEM_DTOR(vec_get(vec_tpos)); vec_tin = 0; }
-  vec_forget_all(); vec_n = 0; vec_heap_len = 0; gh_vec_dtor++; }
+  if (vm.tin) { VEC_ITEM_DTOR(VEC_T); vm.tin = 0; }
+  vm.n = 0; vm.heap_len = 0; vm.bk = 0; vm.nwin = 0; gh_vec_dtor++; }
 #endif
-cv_i1 _ZNKSt6vectorIN5cocls9scheduler7SchItemESaIS2_EE5emptyEv(VECT *v) { VEC_GUARD(v); return vec_n == 0 ? 1 : 0; }
-cv_i64 _ZNKSt6vectorIN5cocls9scheduler7SchItemESaIS2_EE4sizeEv(VECT *v) { VEC_GUARD(v); return vec_n; }
+cv_i1 _ZNKSt6vectorIN5cocls9scheduler7SchItemESaIS2_EE5emptyEv(VECT *v) { VEC_GUARD(v); return vm.n == 0 ? 1 : 0; }
+cv_i64 _ZNKSt6vectorIN5cocls9scheduler7SchItemESaIS2_EE4sizeEv(VECT *v) { VEC_GUARD(v); return vm.n; }
 ITEM *_ZNSt6vectorIN5cocls9scheduler7SchItemESaIS2_EEixEm(VECT *v, cv_i64 i) {
   VEC_GUARD(v);
-  VEC_ASSERT(i < vec_n, "std::vector<SchItem>::operator[]: index within size()");
-  return vec_get(i); }
+  VEC_ASSERT(i < vm.n, "std::vector<SchItem>::operator[]: index within size()");
+  return vec_at(i); }
 ITEM *_ZNSt6vectorIN5cocls9scheduler7SchItemESaIS2_EE5frontEv(VECT *v) {
   VEC_GUARD(v);
-  VEC_ASSERT(vec_n > 0, "std::vector<SchItem>::front() on a non-empty vector");
-  return vec_get(0); }
+  VEC_ASSERT(vm.n > 0, "std::vector<SchItem>::front() on a non-empty vector");
+  return &vm.top; }
 ITEM *_ZNSt6vectorIN5cocls9scheduler7SchItemESaIS2_EE4backEv(VECT *v) {
   VEC_GUARD(v);
-  VEC_ASSERT(vec_n > 0, "std::vector<SchItem>::back() on a non-empty vector");
-  return vec_get(vec_n - 1); }
-ITEM *_ZNSt6vectorIN5cocls9scheduler7SchItemESaIS2_EE5beginEv(VECT *v) { VEC_GUARD(v); return vec_n == 0 ? VEC_END : VEC_BEGIN; }
+  VEC_ASSERT(vm.n > 0, "std::vector<SchItem>::back() on a non-empty vector");
+  return vec_at(vm.n - 1); }
+ITEM *_ZNSt6vectorIN5cocls9scheduler7SchItemESaIS2_EE5beginEv(VECT *v) { VEC_GUARD(v); return vm.n == 0 ? VEC_END : VEC_BEGIN; }
 ITEM *_ZNSt6vectorIN5cocls9scheduler7SchItemESaIS2_EE3endEv(VECT *v) { VEC_GUARD(v); return VEC_END; }
-#define VEC_WHOLE(first, last) ((last) == VEC_END && (first) == (vec_n == 0 ? VEC_END : VEC_BEGIN))
+#define VEC_WHOLE(first, last) ((last) == VEC_END && (first) == (vm.n == 0 ? VEC_END : VEC_BEGIN))
 #ifdef VEC_ITEM_MOVE
 void _ZNSt6vectorIN5cocls9scheduler7SchItemESaIS2_EE9push_backEOS2_(VECT *v, ITEM *x) {
   VEC_GUARD(v);
-  VEC_ASSERT(vec_n < VEC_MAX_N, "arithmetic bound on the number of scheduled entries");
-  VEC_ASSERT(!__CPROVER_same_object(x, vec_s), "push_back of an element of the vector itself");
-  VEC_ITEM_MOVE(vec_get(vec_n), x);         /* the real SchItem(SchItem&&): time point and ident copied, promise moved */
-  vec_n++; }
+  VEC_ASSERT(vm.n < VEC_MAX_N, "arithmetic bound on the number of scheduled entries");
+  VEC_ASSERT(!__CPROVER_same_object(x, &vm), "push_back of an element of the vector itself");
+  VEC_ASSERT(!vm.bk, "model bound: at most one element is appended behind the heap prefix at a time");
+  vm.nwin = 0;
+  if (vm.n == 0) VEC_ITEM_MOVE(&vm.top, x);         /* the real SchItem(SchItem&&): time point and ident copied, promise moved */
+  else { VEC_ITEM_MOVE(&vm.back, x); vm.bk = 1; }
+  vm.n++; }
 #endif
 #ifdef VEC_ITEM_DTOR
 void _ZNSt6vectorIN5cocls9scheduler7SchItemESaIS2_EE8pop_backEv(VECT *v) {
   VEC_GUARD(v);
-  VEC_ASSERT(vec_n > 0, "std::vector<SchItem>::pop_back() on a non-empty vector");
-  VEC_ITEM_DTOR(vec_get(vec_n - 1));        /* the real ~SchItem(): a promise that is still live is dropped here */
-  vec_forget(vec_n - 1);
-  vec_n--;
-  if (vec_tin && vec_tpos == vec_n) vec_tin = 0;
-  if (vec_heap_len > vec_n) vec_heap_len = vec_n; }
+  VEC_ASSERT(vm.n > 0, "std::vector<SchItem>::pop_back() on a non-empty vector");
+  VEC_ITEM_DTOR(vec_at(vm.n - 1));          /* the real ~SchItem(): a promise that is still live is dropped here */
+  if (vm.tin && vm.tpos == vm.n - 1) vm.tin = 0;
+  if (vm.nwin && vm.lastpos == vm.n - 1) vm.nwin = 0;
+  vm.bk = 0; vm.n--;
+  if (vm.heap_len > vm.n) vm.heap_len = vm.n; }
 #endif
 
 #ifdef VEC_COMPARE
@@ -127,45 +119,50 @@ void _ZNSt6vectorIN5cocls9scheduler7SchItemESaIS2_EE8pop_backEv(VECT *v) {
 void _ZSt8pop_heapIN9__gnu_cxx17__normal_iteratorIPN5cocls9scheduler7SchItemESt6vectorIS4_SaIS4_EEEEPFbRKS4_SB_EEvT_SE_T0_(ITEM *first, ITEM *last, cv_i1 (*comp)(ITEM *, ITEM *)) {
   VEC_GUARD((VECT *)0);
   VEC_ASSERT(VEC_WHOLE(first, last), "std::pop_heap: applied to the whole vector [begin(), end())");
-  VEC_ASSERT(vec_n > 0, "std::pop_heap: non-empty range");
-  VEC_ASSERT(vec_heap_len == vec_n, "std::pop_heap: [first,last) is a heap");
+  VEC_ASSERT(vm.n > 0, "std::pop_heap: non-empty range");
+  VEC_ASSERT(vm.heap_len == vm.n && !vm.bk, "std::pop_heap: [first,last) is a heap");
   VEC_ASSERT(VEC_IS_COMPARATOR(comp), "std::pop_heap: same comparator as the heap was built with");
-  ITEM top = *vec_get(0), trk; cv_i64 told = vec_tpos;
-  if (vec_tin) trk = *vec_get(vec_tpos);
-  vec_forget_all();
-  ITEM *back = vec_get(vec_n - 1); *back = top;                      /* the first element goes to the back */
-  if (vec_tin) {
-    if (told == 0) vec_tpos = vec_n - 1;
-    else { cv_i64 t = nondet_size_t(); __CPROVER_assume(t < vec_n - 1); *vec_get(t) = trk; vec_tpos = t; }   /* every other element is somewhere in front of it */
+  vm.nwin = 0;
+  if (vm.n > 1) {
+    cv_i1 t_was_top = vm.tin && vm.tpos == 0;
+    vm.back = vm.top; vm.bk = 1;                                      /* the first element goes to the back */
+    ITEM fresh; cv_i64 t = nondet_size_t();
+    if (vm.tin && !t_was_top) {                                       /* every other element is somewhere in front of it */
+      __CPROVER_assume(t < vm.n - 1);
+      vm.tpos = t;
+      if (t == 0) vm.top = vm.trk; else vm.top = fresh;
+    } else {
+      if (t_was_top) vm.tpos = vm.n - 1;
+      vm.top = fresh;
+    }
+    __CPROVER_assume(!VEC_COMPARE(&vm.back, &vm.top));                /* the moved element is minimal w.r.t. comp among what remains ... */
+    if (vm.tin && !t_was_top && vm.tpos != 0) {
+      __CPROVER_assume(!VEC_COMPARE(&vm.back, &vm.trk));
+      __CPROVER_assume(!VEC_COMPARE(&vm.top, &vm.trk)); }             /* ... and so is the new first element */
   }
-  if (vec_n > 1) {
-    ITEM *nt = vec_get(0);
-    __CPROVER_assume(!VEC_COMPARE(back, nt));                        /* the moved element is minimal w.r.t. comp among what remains ... */
-    if (gh_G < vec_n - 1) { ITEM *g = vec_get(gh_G); __CPROVER_assume(!VEC_COMPARE(back, g)); __CPROVER_assume(!VEC_COMPARE(nt, g)); }   /* ... and so is the new first element */
-    if (vec_tin && vec_tpos < vec_n - 1) { ITEM *t = vec_get(vec_tpos); __CPROVER_assume(!VEC_COMPARE(back, t)); __CPROVER_assume(!VEC_COMPARE(nt, t)); }
-  }
-  vec_heap_len = vec_n - 1; }
+  vm.heap_len = vm.n - 1; }
 
 /* std::push_heap(first, last, comp) */
 void _ZSt9push_heapIN9__gnu_cxx17__normal_iteratorIPN5cocls9scheduler7SchItemESt6vectorIS4_SaIS4_EEEEPFbRKS4_SB_EEvT_SE_T0_(ITEM *first, ITEM *last, cv_i1 (*comp)(ITEM *, ITEM *)) {
   VEC_GUARD((VECT *)0);
   VEC_ASSERT(VEC_WHOLE(first, last), "std::push_heap: applied to the whole vector [begin(), end())");
-  VEC_ASSERT(vec_n > 0, "std::push_heap: non-empty range");
-  VEC_ASSERT(vec_heap_len + 1 >= vec_n, "std::push_heap: [first,last-1) is a heap");
+  VEC_ASSERT(vm.n > 0, "std::push_heap: non-empty range");
+  VEC_ASSERT(vm.heap_len + 1 == vm.n && (vm.bk || vm.n == 1), "std::push_heap: [first,last-1) is a heap and last-1 is the appended element");
   VEC_ASSERT(VEC_IS_COMPARATOR(comp), "std::push_heap: same comparator as the heap was built with");
-  ITEM nw = *vec_get(vec_n - 1), trk; cv_i64 told = vec_tpos;
-  if (vec_tin) trk = *vec_get(vec_tpos);
-  vec_forget_all();
-  cv_i64 q = nondet_size_t(); __CPROVER_assume(q < vec_n); *vec_get(q) = nw; vec_lastpos = q;   /* the new element lands somewhere */
-  if (vec_tin) {
-    if (told == vec_n - 1) vec_tpos = q;
-    else { cv_i64 t = nondet_size_t(); __CPROVER_assume(t < vec_n && t != q); *vec_get(t) = trk; vec_tpos = t; }
+  if (vm.n == 1) { vm.lastpos = 0; vm.nwin = 1; vm.heap_len = 1; return; }
+  cv_i64 q = nondet_size_t(), t = nondet_size_t();
+  __CPROVER_assume(q < vm.n);
+  vm.bk = 0; vm.lastpos = q; vm.nwin = 1;
+  if (q == 0) {                                                       /* the new element becomes the first one: the old first moves down */
+    if (vm.tin) { __CPROVER_assume(t >= 1 && t < vm.n); if (vm.tpos == 0) vm.trk = vm.top; vm.tpos = t; }
+    vm.top = vm.back;
+  } else {                                                            /* the first element stays; elements on the sift path may move down */
+    vm.nw = vm.back;
+    if (vm.tin && vm.tpos != 0) { __CPROVER_assume(t >= 1 && t < vm.n && t != q); vm.tpos = t; }
+    __CPROVER_assume(!VEC_COMPARE(&vm.top, &vm.nw));
   }
-  ITEM *nt = vec_get(0);
-  __CPROVER_assume(!VEC_COMPARE(nt, vec_get(q)));
-  if (gh_G < vec_n) __CPROVER_assume(!VEC_COMPARE(nt, vec_get(gh_G)));
-  if (vec_tin) __CPROVER_assume(!VEC_COMPARE(nt, vec_get(vec_tpos)));
-  vec_heap_len = vec_n; }
+  if (vm.tin && vm.tpos != 0) __CPROVER_assume(!VEC_COMPARE(&vm.top, &vm.trk));
+  vm.heap_len = vm.n; }
 #endif
 
 #ifdef CV_HAS_vec_find_if
@@ -174,10 +171,10 @@ ITEM *vec_find_if(ITEM *first, ITEM *last, cv_i8 **pred) {
   VEC_GUARD((VECT *)0);
   VEC_ASSERT(VEC_WHOLE(first, last), "std::find_if: applied to the whole vector [begin(), end())");
   cv_i8 **closure = pred;
-  cv_i64 r = nondet_size_t(); __CPROVER_assume(r <= vec_n);
+  cv_i64 r = nondet_size_t(); __CPROVER_assume(r <= vm.n);
   ITEM *f = VEC_END;
-  if (r < vec_n) { f = vec_get(r); __CPROVER_assume(VEC_FIND_PRED(&closure, f)); }                           /* found: satisfies the predicate       */
-  if (gh_G < r) __CPROVER_assume(!VEC_FIND_PRED(&closure, vec_get(gh_G)));                                  /* nothing before it does (at gh_G ...) */
-  if (vec_tin && vec_tpos < r) __CPROVER_assume(!VEC_FIND_PRED(&closure, vec_get(vec_tpos)));              /* ... and at the tracked element       */
+  if (r < vm.n) { f = vec_at(r); __CPROVER_assume(VEC_FIND_PRED(&closure, f)); }                            /* found: satisfies the predicate                 */
+  if (0 < r) __CPROVER_assume(!VEC_FIND_PRED(&closure, &vm.top));                                          /* nothing before it does: at the first element ... */
+  if (vm.tin && vm.tpos < r) __CPROVER_assume(!VEC_FIND_PRED(&closure, VEC_T));                            /* ... and at the tracked element                 */
   return f; }
 #endif
